@@ -429,6 +429,27 @@ def run(tier):
         if any(c in text for c in '\\'):
             n_strings_with_specials += 1
 
+    # ---- the serialisation as grouping / join KEY (data.py): a value and the STRING spelling its JSON text are different keys
+    key_pairs = [("1", "'1'"), ("null", "'null'"), ("true", "'true'"), ("arrayNew(1, 2)", "'[1,2]'"), ("objectNew('a', 1)", "'{" + '"a"' + ":1}'"),
+                 ("'a'", "'" + '"a"' + "'"), ("1.5", "'1.5'"), ("0", "false"), ("''", "'" + '""' + "'")]
+    ksrc = ["left = arrayNew(" + ", ".join(f"objectNew('k', {a}, 'v', {i})" for i, (a, _) in enumerate(key_pairs)) + ")",
+            "right = arrayNew(" + ", ".join(f"objectNew('k', {b}, 'w', {i})" for i, (_, b) in enumerate(key_pairs)) + ")",
+            "jj = dataJoin(left, right, 'k', null, true)",
+            "hits = 0", "for row in jj:", "    if objectHas(row, 'w'):", "        hits = hits + 1", "    endif", "endfor",
+            "both = arrayNew()", "for row in left:", "    arrayPush(both, objectNew('k', objectGet(row, 'k')))", "endfor",
+            "for row in right:", "    arrayPush(both, objectNew('k', objectGet(row, 'k')))", "endfor",
+            "groups = dataAggregate(both, objectNew('categories', arrayNew('k'), 'measures', arrayNew(objectNew('field', 'k', 'function', 'count', 'name', 'n'))))",
+            "return arrayNew(hits, arrayLength(groups))"]
+    kres = core.run_impl('run_script', [{'text': '\n'.join(ksrc) + '\n', 'globals': {}, 'max': 0}], shards=1)[0]
+    want = ['arr', [['flt', (0.0).hex()], ['int', str(2 * len(key_pairs))]]]
+    got = kres.get('res')
+    def _nums(t):
+        return [float.fromhex(x[1]) if x[0] == 'flt' else float(int(x[1], 0)) for x in t[1]] if isinstance(t, list) and t and t[0] == 'arr' else t
+    if _nums(got) != _nums(want):
+        chk.oracle_fail.append({'class': 'value-and-the-string-of-its-json-text-share-a-key', 'source': '\n'.join(ksrc),
+                                'input': {'pairs': key_pairs}, 'expected': {'joined_hits': 0, 'groups': 2 * len(key_pairs)},
+                                'got': kres.get('res') or kres})
+
     # ---- correspondence inside Coq
     corr_n = 0
     if model_ok:
